@@ -3,7 +3,8 @@ from fractions import Fraction
 import math
 from tools.lib import Case, f2hex, hex2f, same_float_tok, cps
 from tools.props.c06 import (pmul, from_roots, pderiv, peval, pabs_eval, representable, enc_spoly, enc_ipoly,
-                             terms_of_coefs, Tk, parse_poly, dense_of, fin, close, q4, X, EPS, TINY, TOLS)
+                             terms_of_coefs, Tk, parse_poly, dense_of, fin, q4, X, EPS, TINY, TOLS,
+                             same_line, bridge_compare, sim_nrm, extra_evidence)
 
 ID = 'C07'
 RULE = ('soundness half: polynomials of degree 0..7 (random integer / unit / wide coefficients, constants, the zero '
@@ -15,12 +16,14 @@ RULE = ('soundness half: polynomials of degree 0..7 (random integer / unit / wid
         'distinct case line; non-trivial = the target is not constant and the start is finite')
 TRUSTED = ['extraction of the float instance (ExtrOcamlBasic, ExtrOCamlFloats, ExtrOCamlInt63) and ocaml/c07.ml',
            'Rust harness harness/src/bin/c07.rs', 'exact-rational oracle tools/props/c07.py',
-           'IntermediatePolynomial: f64::powf (libm) is modelled by square-and-multiply; results compared under an envelope']
+           'IntermediatePolynomial: f64::powf (libm) is modelled by square-and-multiply; the relation goes through a Python copy of the '
+           'model that is checked bit for bit against the extracted model (square-and-multiply) and against the crate (libm pow '
+           'called through ctypes)']
 ASSUMPTIONS = ['theorems are about the R instance (exact arithmetic); float behaviour is measured by the bit-for-bit comparison',
                'the tolerance is a percentage: "tol% * |x|" is tol/100*|x|',
                'residual bound: max|g\'\'| over [x - d, x + d], d = tol/100*|x|, bounded by sum |g_k| k(k-1) (|x|+d)^(k-2); '
                '"plus rounding" = 8(n+3) eps sum (k+1)|g_k| (|x|+d)^k',
-               'convergence half is demanded for cap >= 200 and 1e-10 <= tol <= 1e-1 on targets whose non-zero coefficients lie '
+               'convergence half is demanded for cap >= 200 and 1e-12 <= tol <= 1e-1 on targets whose non-zero coefficients lie '
                'in [2^-20, 2^20] with roots separated by at least a quarter of the hull scale']
 
 CAPS = [0, 1, 2, 5, 60, 100, 200, 1200, 3000]
@@ -182,34 +185,11 @@ def known(case, impl, clause):
 
 
 def compare(case, impl, model):
-    if impl == model:
-        return True
-    if impl.startswith('ok ') and model.startswith('ok '):
-        if same_float_tok(impl[3:], model[3:]):
-            return True
     d = parse(case)
     if d['ptype'] == 's':
-        return False
-    # IntermediatePolynomial: libm powf against square-and-multiply: last-bit differences of the values move the
-    # iterates by a few ulps times the conditioning; both runs stop on the same relative test
-    if not (impl.startswith('ok ') and model.startswith('ok ')):
-        return False
-    a, b = hex2f(impl[3:]), hex2f(model[3:])
-    if not (fin(a) and fin(b)):
-        return False
-    rel = 2 * Fraction(d['tol']) / 100 + 64 * EPS if fin(d['tol']) and d['tol'] > 0 else 64 * EPS
-    if close(a, b, rel):
-        return True
-    # multiple roots: convergence is linear and the stop fires inside the zone where g is rounding noise;
-    # accept two results that both lie in that zone (|g| below the evaluation envelope)
-    g = target_of(d)
-    if isinstance(g, list):
-        for x in (a, b):
-            fx = Fraction(x)
-            if abs(peval(g, fx)) > 8 * (len(g) + 3) * EPS * pabs_eval(g, fx) + TINY:
-                return False
-        return True
-    return False
+        return same_line(impl, model)
+    poly = (d['terms'], d['vars'])
+    return bridge_compare(lambda pw: sim_nrm(poly, d['x0'], d['cap'], d['tol'], d['mode'], pw), impl, model)
 
 
 # ----------------------------------------------------------------- generator
